@@ -447,7 +447,129 @@ def history_job(job):
     return acc
 
 
+# ---------------------------------------------------------------------------------------------
+# API level non-interference: read_runtime_data() on a simulated inverter; ONE register is changed and every typed sensor
+# whose own registers do not include it must report exactly what it reported before
+# ---------------------------------------------------------------------------------------------
+CODE_KINDS = ("Integer", "IntegerS", "Byte", "ByteH", "ByteL", "Enum", "EnumH", "EnumL", "Enum2", "Long", "LongS", "EnumBitmap4", "EnumBitmap22")
+_NIB = (0, 1, 2, 4, 8, 0xF)
+FOREIGN_PALETTE = sorted(set(range(0, 34)) | {a << 12 | b << 8 | c << 4 | d for a in _NIB for b in _NIB for c in _NIB for d in _NIB}
+                         | {1 << k for k in range(16)} | {0xFFFF ^ (1 << k) for k in range(16)} | {0x7FFF, 0x8000, 0xFFFE, 0x00FF, 0xFF00, 0x0100, 0x0101, 0x0111, 0x0333, 0x0444})
+FOREIGN_CONFIGS = [
+    {"family": "ET", "serial": b"925KETT000W00001", "rated_power": 25000, "refuse": [], "battery_mode": 1, "tcp": False},
+    {"family": "ET", "serial": b"9010KETU000W0000", "rated_power": 10000, "refuse": ["meter_ext2"], "battery_mode": 1, "tcp": True},
+    {"family": "ET", "serial": b"95000EHU000W0001", "rated_power": 5000, "refuse": ["meter_ext2", "meter_ext"], "battery_mode": 2, "tcp": False},
+    {"family": "DT", "serial": b"9010KDTU000W0000", "refuse": [], "tcp": False},
+    {"family": "DT", "serial": b"9010KMSU000W0000", "refuse": [], "tcp": True},
+    {"family": "ES", "serial": b"95048ESU000W0000", "firmware": b"02041"},
+]
+
+
+def _foreign_target(cfg, salt):
+    from vlib import siminv
+    from vlib.harness import run_sync
+    img = lambda a: (a * 40503 + salt * 977 + 11) & 0x7FFF
+    inv, sim = siminv.build_direct(dict(cfg), default=img)
+    if cfg["family"] == "ES":
+        sim.runtime = bytearray((i * 37 + salt * 11 + 5) & 0x7F for i in range(len(sim.runtime)))
+    run_sync(inv.read_device_info())
+    return inv, sim
+
+
+def _windows(inv, fam):
+    """typed sensors of the object with the set of register addresses (ES: byte offsets) that are their own"""
+    out = []
+    for s_ in inv.sensors():
+        tn = rs.type_name(s_)
+        if tn in rs.COMPUTED or rs.width(s_) is None:
+            continue
+        w = rs.width(s_)
+        own = set(range(s_.offset, s_.offset + w)) if fam == "ES" else set(range(s_.offset, s_.offset + (w + 1) // 2))
+        out.append((s_.id_, tn, own))
+    return out
+
+
+def foreign_job(job):
+    """job = (config index, part, parts, all_registers, salt)"""
+    from vlib.harness import run_sync
+    ci, part, parts, all_regs, salt = job
+    cfg = FOREIGN_CONFIGS[ci]
+    fam = cfg["family"]
+    acc = Acc()
+    inv, sim = _foreign_target(cfg, salt)
+    base = run_sync(inv.read_runtime_data())
+    wins = _windows(inv, fam)
+    cells = sorted({a for _i, tn, own in wins if all_regs or tn in CODE_KINDS for a in own})
+    if fam == "ES":
+        cells = sorted({a & ~1 for a in cells})
+    mine = cells[part::parts]
+    for a in mine:
+        if fam == "ES":
+            old = bytes(sim.runtime[a:a + 2])
+        else:
+            old = sim.get(a) if hasattr(sim, "get") else sim.regs.get(a, 0)
+        touched = {a, a + 1} if fam == "ES" else {a}
+        for v in FOREIGN_PALETTE:
+            acc.case()
+            if fam == "ES":
+                sim.runtime[a:a + 2] = bytes((v >> 8, v & 0xFF))
+            else:
+                sim.set(a, v)
+            try:
+                d = run_sync(inv.read_runtime_data())
+            except Exception as ex:
+                acc.fail("C12|api-foreign|%s|%s" % (fam, type(ex).__name__), "read_runtime_data raised %r with register %d = 0x%04x" % (ex, a, v),
+                         {"api_foreign": True, "config": ci, "cell": a, "value": v, "salt": salt})
+                continue
+            acc.nontrivial("api-foreign", ci, a, v)
+            for sid, tn, own in wins:
+                if own & touched or sid not in base or sid not in d:     # (which ids are reported is C15's subject: battery_mode 0 = no battery block)
+                    continue
+                if repr(d[sid]) != repr(base[sid]):
+                    acc.fail("C12|api-foreign|%s|other-register-changed-value" % fam,
+                             "read_runtime_data(): %s (%s, own registers %s) changed from %r to %r when only register %d was set to 0x%04x" % (
+                                 sid, tn, sorted(own)[:4], base[sid], d.get(sid), a, v),
+                             {"api_foreign": True, "config": ci, "cell": a, "value": v, "salt": salt})
+                    break
+        if fam == "ES":
+            sim.runtime[a:a + 2] = old
+        else:
+            sim.set(a, old)
+    if mine:
+        acc.sample({"api_foreign": True, "config": ci, "cells": len(mine), "palette": len(FOREIGN_PALETTE), "first_cell": mine[0]})
+    return acc
+
+
+def _foreign_replay(case):
+    from vlib.harness import run_sync
+    acc = Acc()
+    cfg = FOREIGN_CONFIGS[case["config"]]
+    fam = cfg["family"]
+    inv, sim = _foreign_target(cfg, case["salt"])
+    base = run_sync(inv.read_runtime_data())
+    a, v = case["cell"], case["value"]
+    if fam == "ES":
+        sim.runtime[a:a + 2] = bytes((v >> 8, v & 0xFF))
+    else:
+        sim.set(a, v)
+    acc.case()
+    d = run_sync(inv.read_runtime_data())
+    touched = {a, a + 1} if fam == "ES" else {a}
+    for sid, tn, own in _windows(inv, fam):
+        if own & touched or sid not in base or sid not in d:
+            continue
+        if repr(d[sid]) != repr(base[sid]):
+            acc.fail("C12|api-foreign|%s|other-register-changed-value" % fam, "%s changed from %r to %r when only register %d was set to 0x%04x" % (
+                sid, base[sid], d.get(sid), a, v), case)
+            break
+    return acc
+
+
 def run(ctx):
+    parts = 5 if ctx.quick else 16
+    ctx.shard(foreign_job, [(ci, p, parts, not ctx.quick, ctx.seed) for ci in ((0, 3, 5) if ctx.quick else range(len(FOREIGN_CONFIGS))) for p in range(parts)],
+              "API level: one register of the blocks read by read_runtime_data() takes %d values (small codes, nibble patterns, single bits); every "
+              "typed sensor that does not own it must keep its value (quick: registers of code/enum/integer sensors; thorough: every register)" % len(FOREIGN_PALETTE))
     ctx.shard(history_job, [(p, 16) for p in range(16)],
               "API level: every setting id + every 7th sensor id read on a fresh object vs. after reading histories (pre-reads before / "
               "around read_device_info, failed device info, reverse order) - same requests, same values")
@@ -487,6 +609,10 @@ def replay(ctx, case):
         return
     if case.get("history"):
         ctx.acc.merge(history_job((0, 1)))
+        return
+    if case.get("api_foreign"):
+        cfg = FOREIGN_CONFIGS[case["config"]]
+        ctx.acc.merge(_foreign_replay(case))
         return
     s = tables.find(case["family"], case["table"], case["index"])
     check_one(ctx.acc, case["family"], case["table"], case["index"], s, case["own"], case.get("first_delta", 0),
